@@ -1437,7 +1437,21 @@ def remove_redundant_comprehensions(source: str) -> str:
     def funcname(template_match_tuple):
         return comprehension_wrapper_funcs[type(template_match_tuple)]
 
-    yield from processing.find_replace(source, find, replace, funcname=funcname)
+    root = core.parse(source)
+    # A generator that is the only argument of a call shares its parentheses with the call
+    bare_generators = {
+        call.args[0]
+        for call in core.walk(root, ast.Call(args=[ast.GeneratorExp], keywords=[]))
+        if (call.end_lineno, call.end_col_offset)
+        == (call.args[0].end_lineno, call.args[0].end_col_offset)
+    }
+    for replacement_range, replacement, template_match in processing.find_replace(
+        source, find, replace, funcname=funcname, root=root, yield_match=True
+    ):
+        if template_match.root in bare_generators:
+            replacement = f"({replacement})"
+
+        yield replacement_range, replacement
 
 
 @processing.fix
